@@ -624,63 +624,110 @@ def check(model, rep, tier):
         bad.append(core.norm(t)[:60])
   rets = [r for r in core.walk_no_nested(ef.node) if isinstance(r, ast.Return)]
   uses_frame = all(k in core.norm(ef.node) for k in ('.f_globals', '.f_locals'))
-  # what is passed to eval for each argument count, evaluated concretely on the
-  # count (all selections are comparisons of len(args) with constants)
+  # what is passed to eval for every shape of the argument tuple, evaluated
+  # concretely: count 1..3, and each supplied namespace None or not.  Python:
+  # omitted / None globals -> the caller's globals; omitted / None locals ->
+  # the globals dictionary when one was given, else the caller's locals.
+  from sa import pathsym
   by_count = {}
   count_ok = True
-  fvar = None
-  for c in ast.walk(ef.node):
-    if isinstance(c, ast.Call) and core.dotted(c.func) == '_find_originating_frame':
-      asg = [a for a in ast.walk(ef.node) if isinstance(a, ast.Assign) and a.value is c
-             and isinstance(a.targets[0], ast.Name)]
-      fvar = asg[0].targets[0].id if asg else None
-  for n_args in (1, 2, 3):
-    def conc(e, n_args=n_args):
-      if isinstance(e, ast.Compare) and len(e.ops) == 1 and core.norm(e.left) == \
-          'len(%s)' % an and isinstance(e.comparators[0], ast.Constant):
-        k = e.comparators[0].value
-        op = type(e.ops[0])
-        v = {ast.Lt: n_args < k, ast.LtE: n_args <= k, ast.Eq: n_args == k,
-             ast.Gt: n_args > k, ast.GtE: n_args >= k, ast.NotEq: n_args != k}.get(op)
-        if v is not None:
-          return formula.TRUE if v else formula.FALSE
-      return None
 
-    def pick(e):
-      while isinstance(e, ast.IfExp):
-        f = formula.bool_formula(e.test, conc)
-        if f.atoms:
+  def _sym(e, n_args, nones):
+    if isinstance(e, ast.Constant) and e.value is None:
+      return ('none',)
+    if isinstance(e, ast.IfExp):
+      t = _truth(e.test, n_args, nones)
+      if t is None:
+        return ('other', core.norm(e))
+      return _sym(e.body if t else e.orelse, n_args, nones)
+    if isinstance(e, ast.Subscript) and core.norm(e.value) == an and isinstance(
+        e.slice, ast.Constant) and isinstance(e.slice.value, int):
+      k = e.slice.value
+      if k >= n_args:
+        return ('bad', 'index %d of %d arguments' % (k, n_args))
+      return ('none',) if nones.get(k) else ('arg', k)
+    if isinstance(e, ast.Attribute) and e.attr in ('f_globals', 'f_locals') and \
+        core.norm(e.value).startswith('_find_originating_frame('):
+      return ('frame', e.attr)
+    return ('other', core.norm(e))
+
+  def _truth(t, n_args, nones):
+    if isinstance(t, ast.BoolOp):
+      vs = [_truth(v, n_args, nones) for v in t.values]
+      if isinstance(t.op, ast.And):
+        return False if any(v is False for v in vs) else (
+            True if all(v is True for v in vs) else None)
+      return True if any(v is True for v in vs) else (
+          False if all(v is False for v in vs) else None)
+    if isinstance(t, ast.UnaryOp) and isinstance(t.op, ast.Not):
+      v = _truth(t.operand, n_args, nones)
+      return None if v is None else (not v)
+    if isinstance(t, ast.Compare) and len(t.ops) == 1:
+      if core.norm(t.left) == 'len(%s)' % an and isinstance(
+          t.comparators[0], ast.Constant):
+        k = t.comparators[0].value
+        return {ast.Lt: n_args < k, ast.LtE: n_args <= k, ast.Eq: n_args == k,
+                ast.Gt: n_args > k, ast.GtE: n_args >= k,
+                ast.NotEq: n_args != k}.get(type(t.ops[0]))
+      if isinstance(t.ops[0], (ast.Is, ast.IsNot)) and isinstance(
+          t.comparators[0], ast.Constant) and t.comparators[0].value is None:
+        v = _sym(t.left, n_args, nones)
+        if v[0] in ('other', 'bad'):
           return None
-        e = e.body if f.fn({}) else e.orelse
-      return e
-    taken = [(f, v) for f, v in formula.return_cases(ef.node, conc)
-             if not f.atoms and f.fn({})]
-    if len(taken) != 1 or not isinstance(taken[0][1], ast.Call) or \
-        core.norm(taken[0][1].func) != ep[0] or taken[0][1].keywords:
+        r = v == ('none',)
+        return r if isinstance(t.ops[0], ast.Is) else (not r)
+    return None
+
+  configs = [(1, {})] + [(2, {1: x}) for x in (False, True)] + [
+      (3, {1: x, 2: y}) for x in (False, True) for y in (False, True)]
+  all_paths = []
+  for r in rets:
+    if r.value is not None:
+      all_paths += [(c, v) for c, v in pathsym.path_values(ef.node, r, r.value)]
+  for n_args, nones in configs:
+    label = '%d args%s' % (n_args, ''.join(
+        ', args[%d] is None' % k for k, v in sorted(nones.items()) if v))
+    taken = {}
+    undecided = False
+    for conds, val in all_paths:
+      ts = [_truth(t, n_args, nones) for pol, t in conds]
+      if any(x is None for x in ts):
+        undecided = True
+        continue
+      if all(x == (pol == 'T') for x, (pol, t) in zip(ts, conds)):
+        taken[core.norm(val)] = val
+    if undecided or len(taken) != 1:
+      by_count[label] = 'paths not decided by the argument shape (%d feasible)' % len(taken)
       count_ok = False
-      break
-    call = taken[0][1]
-    ret_stmt = [r for r in rets if any(x is call for x in ast.walk(r))]
+      continue
+    call = list(taken.values())[0]
+    if not isinstance(call, ast.Call) or core.norm(call.func) != ep[0] or call.keywords:
+      by_count[label] = core.norm(call)[:80]
+      count_ok = False
+      continue
     argv = list(call.args)
-    if len(argv) == 1 and isinstance(argv[0], ast.Starred):
-      tup = tpl.expand(ef, argv[0].value, ret_stmt[0] if ret_stmt else call)
-      if not isinstance(tup, ast.Tuple):
-        count_ok = False
-        break
-      argv = list(tup.elts)
-    vals = [pick(a) for a in argv]
-    if any(v is None for v in vals) or len(vals) != 3:
-      count_ok = False
-      break
-    at = ret_stmt[0] if ret_stmt else call
-    got = [tpl.xnorm(ef, v, at) if any(v is x for x in ast.walk(at)) else core.norm(v)
-           for v in vals]
-    by_count[n_args] = got
-    fx = tpl.xnorm(ef, ast.Name(id=fvar, ctx=ast.Load()), at) if fvar else '?'
-    want = ['%s[0]' % an,
-            '%s[1]' % an if n_args >= 2 else '%s.f_globals' % fx,
-            '%s[2]' % an if n_args >= 3 else '%s.f_locals' % fx]
-    if got != want:
+    if len(argv) == 1 and isinstance(argv[0], ast.Starred) and isinstance(
+        argv[0].value, ast.Tuple):
+      argv = list(argv[0].value.elts)
+    elif len(argv) == 1 and isinstance(argv[0], ast.Starred) and core.norm(
+        argv[0].value) == an:
+      argv = [ast.Subscript(value=ast.Name(id=an, ctx=ast.Load()),
+                            slice=ast.Constant(i), ctx=ast.Load()) for i in range(n_args)]
+    vals = [_sym(a_, n_args, nones) for a_ in argv]
+    by_count[label] = [' '.join(map(str, v)) for v in vals]
+    g_given = n_args >= 2 and not nones.get(1)
+    l_given = n_args >= 3 and not nones.get(2)
+    want_g = ('arg', 1) if g_given else ('frame', 'f_globals')
+    ok_c = len(vals) in (2, 3) and vals[0] == ('arg', 0) and vals[1] == want_g
+    if ok_c:
+      lv = vals[2] if len(vals) == 3 else ('none',)
+      if l_given:
+        ok_c = lv == ('arg', 2)
+      elif g_given:
+        ok_c = lv in (('none',), ('arg', 1))      # omitted: defaults to the globals
+      else:
+        ok_c = lv == ('frame', 'f_locals')
+    if not ok_c:
       count_ok = False
   rep.check(not bad and uses_frame and count_ok, 'BI-FRAME',
             '%s:namespaces-default-by-count' % ef.site,
